@@ -3,9 +3,13 @@
     * `ProofsBytes` : byte-level AS_PATH helpers vs. the segment-level reading;
     * `ProofsEval`  : conditions, actions and chaining of one evaluation vs. the reference chain;
     * `ProofsCrud`  : the reference-closure invariant `Inv` under every CRUD call;
-    * `ProofsCheck` : `check_run_ok` — the reference checker accepts every run of the model.
+    * `ProofsCheck` : `check_run_ok` — the reference checker accepts every run of the model;
+    * `ProofsD`, `ProofsDCheck` : the invariant extended to the daemon-side holders (`DInv`) and
+      `dcheck_run_ok` for daemon-level cases.
 -/
 import Rbgp.Policy.ProofsBytes
 import Rbgp.Policy.ProofsEval
 import Rbgp.Policy.ProofsCrud
 import Rbgp.Policy.ProofsCheck
+import Rbgp.Policy.ProofsD
+import Rbgp.Policy.ProofsDCheck
